@@ -4,7 +4,9 @@ Simulated dimension: the model timestep IS the simulated clock and systems are p
 simulator advances the clock through the real scheduler (execute(n), bare execute_systems()), registers
 systems late (also after their start, on and off a firing instant) and compares every firing with a
 reference timer wheel; a twin model advanced strictly one step at a time must log the same."""
-from .common import MAXSIZE, EqRec, Model, Rec, RefSched, gen_prio, spec_defaults
+import numpy
+
+from .common import MAXSIZE, Model, RefSched, gen_flavour, gen_prio, rec_class, spec_defaults
 
 PROPERTY = "C02"
 QUICK_RUNS = 20000
@@ -15,13 +17,13 @@ RULE = ("1-8 timer systems with start in [-12,50] or far future, end in {forever
         "injected; non-trivial = >=1 system with start != 0 and frequency > 1 fired >=2 times and >=1 system was "
         "registered after its start; distinct = multiset of (start, end-class, frequency, registration offset) plus "
         "the advance pattern"
-        "; also: removal and re-registration (other window, same id), systems registered by other systems from inside a step (also inside execute(n)), str-subclass ids, systems with value-based __eq__")
+        "; also: removal and re-registration (other window, same id), systems registered by other systems from inside a step (also inside execute(n)), str-subclass ids, systems with value-based __eq__, falsy systems, window bounds given as numpy.int64")
 COMPONENTS = {"real": ["ECAgent.Core.SystemManager.execute_systems (activation predicate, clock)", "ECAgent.Core.Model.execute",
                        "Model.timestep forwarding"],
               "stub": ["System.execute bodies are harness recorders"]}
 PROBES = ["fired_at_end", "silent_after_end", "negative_start", "end_before_start", "late_registration_out_of_phase",
           "late_registration_in_phase", "bad_n_rejected", "freq_beyond_horizon", "bare_execute_systems", "reregistered_after_removal", "registered_from_inside_a_step",
-          "registered_inside_multi_step_request", "str_subclass_id"]
+          "registered_inside_multi_step_request", "str_subclass_id", "numpy_int_window", "falsy_systems"]
 TECHNIQUE = "deterministic simulation: model clock stepped through the real scheduler vs a reference timer wheel and a single-stepped twin model"
 LEVEL_TEXT = ("Seeded search over timer windows, registration instants and advance patterns; every firing of every timestep is "
               "compared with the predicate start<=t<=end and (t-start)%f==0, the clock with the count of accepted steps, "
@@ -103,12 +105,26 @@ def generate(rng, tier):
             f = systems[by]["freq"]
             t = max(0, systems[by]["start"]) + f * rng.randint(0, max(1, horizon // (2 * f)))   # a firing instant of the spawner
             spawns.append({"by": by, "t": min(t, horizon - 1), "k": k})
-    return {"systems": systems, "ops": ops, "spawns": spawns, "value_eq": rng.random() < 0.12}
+    for s in systems:
+        if rng.random() < 0.12:      # window bounds that are numpy integers (taken out of an array, say)
+            s["np"] = rng.choice([["start"], ["start"], ["start", "end"], ["freq"], ["start", "end", "freq"], ["end"]])
+    return dict({"systems": systems, "ops": ops, "spawns": spawns}, **gen_flavour(rng))
 
 
 class SID(str):
     """A system id type that is a str subclass (e.g. a str-valued Enum member in user code)."""
     __slots__ = ()
+
+
+def npify(spec):
+    """The same window with some bounds given as numpy.int64 (the reference keeps plain ints)."""
+    if not spec.get("np"):
+        return spec
+    out = dict(spec)
+    for k in spec["np"]:
+        if k in out and -2 ** 63 <= out[k] < 2 ** 63:
+            out[k] = numpy.int64(out[k])
+    return out
 
 
 class World:
@@ -119,7 +135,7 @@ class World:
         self.reg = set()
         self.systems = (sc or {}).get("systems", [])
         self.spawns = (sc or {}).get("spawns", [])
-        self.value_eq = bool((sc or {}).get("value_eq"))
+        self.rec_cls = rec_class(sc or {})
 
     def on_execute(self, s):
         t = self.model.systems.timestep
@@ -130,7 +146,7 @@ class World:
                 if spec["id"] not in self.reg and spec["freq"] >= 1:
                     if spec.get("strsub"):
                         spec = dict(spec, id=SID(spec["id"]))
-                    self.model.systems.add_system((EqRec if self.value_eq else Rec)(spec, self.model, self))
+                    self.model.systems.add_system(self.rec_cls(npify(spec), self.model, self))
                     self.reg.add(spec["id"])
 
 
@@ -212,7 +228,10 @@ def execute(sc, ctx):
             rspec = dict(spec, id=SID(spec["id"])) if spec.get("strsub") else spec
             if spec.get("strsub"):
                 ctx.probe("str_subclass_id")
-            R_ = EqRec if sc.get("value_eq") else Rec       # noqa: N806
+            R_ = rec_class(sc, ctx)       # noqa: N806
+            if spec.get("np"):
+                ctx.probe("numpy_int_window")
+                rspec = npify(rspec)
             ctx.expect_ok("add", m.systems.add_system, R_(rspec, m, w))
             ctx.expect_ok("add-twin", twin.systems.add_system, R_(rspec, twin, wt))
             w.reg.add(spec["id"])
